@@ -87,6 +87,37 @@ def run(ctx):
         cal = {b.blocks[n_[1]].term.callee.short.split("::")[-1] for n_ in sl if n_[0] == "CALL" and b.blocks[n_[1]].term.callee}
         ok = bool(cal & {"get_all_node_names", "get_all_nodes"}) and not (cal & {"get_successors_map", "get_predecessors_map", "keys", "get_all_edges"})
         ctx.require(ok, "R-C10-2", "outer-loop|" + b.short, "%s starts a search from every node of the node store" % sfx.split("::")[-1], "%s enumerates its start nodes from %s: a node without an entry there (e.g. an isolated node) ends up in no component" % (sfx.split("::")[-1], sorted(cal)), loc_str(t.span))
+    # ------------------------------------------------------------------ R-C10-7
+    # "breadth_first_search(x) lists every node reachable from x": on a directed graph reachability follows the edges'
+    # direction, so the search expands a node through its successors (all neighbours only when undirected)
+    ctx.rule("R-C10-7", "breadth_first_search expands a node through get_successors_or_neighbors (successors on directed graphs), never through predecessors or the undirected neighbour query")
+    from props.c01 import controlling_atoms as _ca
+
+    bfs = prog.one("query::Graph::breadth_first_search")
+    own7 = [bfs] + list(prog.closures_of(bfs.path))
+    cal7 = set()
+    und_ok7 = set()
+    for b7 in own7:
+        f7 = flows.of(b7)
+        for t7 in b7.calls():
+            tp7 = t7.callee.target_path(prog) if t7.callee else None
+            if tp7:
+                nm7 = prog.bodies[tp7].short.split("::")[-1]
+                if nm7 == "get_neighbor_nodes" and any(isinstance(te, tuple) and te[0] == "place" and te[1].endswith("specs.directed") and v is False for (te, v, a) in _ca(f7, t7.bb)):
+                    und_ok7.add(nm7)  # explicitly the undirected arm
+                    continue
+                if nm7 in ("get_successor_nodes", "get_successor_nodes_by_index") and any(isinstance(te, tuple) and te[0] == "place" and te[1].endswith("specs.directed") and v is True for (te, v, a) in _ca(f7, t7.bb)):
+                    nm7 = "get_successors_or_neighbors"
+                cal7.add(nm7)
+    from graphrules import field_of as _fo
+
+    fs7 = set()
+    for (bp7, nd7) in flows.slice(bfs.path, [("L", 0)], up=False, down="clos", data_only=True):
+        if nd7[0] == "SRC":
+            fs7.add(_fo(("P", nd7[1], nd7[2])))
+    good7 = cal7 & {"get_successors_or_neighbors", "get_successors_or_neighbors_by_index"}
+    bad7 = sorted((cal7 & {"get_neighbor_nodes", "get_predecessor_nodes", "get_predecessor_nodes_by_index", "get_predecessor_node_names", "get_predecessors_map", "get_in_edges_for_node", "get_edges_for_node"}) | (fs7 & {"predecessors", "predecessors_map", "predecessors_vec"}))
+    ctx.require(bool(good7) and not bad7, "R-C10-7", "expansion", "breadth_first_search expands through %s" % sorted(good7), "breadth_first_search expands a node through %s: on a directed graph it then also walks edges backwards and reports the weakly connected component instead of the nodes reachable from x" % (bad7 or sorted(cal7)), loc_str(bfs.span))
     # ------------------------------------------------------------------ R-C10-6
     from graphrules import adjacency_entry_targets_agree
 
